@@ -19,6 +19,7 @@ import (
 	"path/filepath"
 	"strings"
 	"sync"
+	"sync/atomic"
 	"syscall"
 	"time"
 
@@ -931,12 +932,57 @@ func c19(x *mon.Ctx) {
 			}
 		}
 	}
+	// ... and while ANOTHER verification — a healthy one, through its own getter — is downloading the same URLs: whose endpoint is
+	// down gets its typed error, whatever others are fetching at that moment (no timing is assumed: the failing verifier's verdict
+	// does not depend on when the healthy one runs)
+	for name, drop := range map[string]string{"tcbinfo": "/tcb?", "qeidentity": "/qe/identity", "pckcrl": "pckcrl", "rootcrl": ".der"} {
+		for round := 0; round < x.Pick(2, 6); round++ {
+			healthy := w.Case(world.LCrl, "typed-fetch-error", "healthy-neighbour")
+			failing := w.Clone().Case(world.LCrl, "typed-fetch-error", name+"/while-a-healthy-neighbour-downloads")
+			for u := range failing.Resp {
+				if strings.Contains(u, drop) {
+					failing.Resp[u] = world.Resp{Err: "dial tcp: connection refused"}
+				}
+			}
+			ho, hg := mon.Options(healthy)
+			slow := &slowGetter{inner: hg, delay: 30 * time.Millisecond}
+			ho.Getter = slow
+			done := make(chan bool, 1)
+			go func() {
+				var e error
+				_, _ = mon.Guard(func() { e = verify.RawTdxQuote(healthy.Quote, ho) })
+				done <- e == nil
+			}()
+			for slow.calls() == 0 { // until the neighbour is inside its first download
+				time.Sleep(time.Millisecond)
+			}
+			var outs []mon.Outcome
+			for k := 0; k < 3; k++ {
+				outs = append(outs, mon.RunVerify(failing))
+			}
+			neighbourOK := <-done
+			for k, out := range outs {
+				okk := out.AsCRLUnavailable
+				if name == "tcbinfo" || name == "qeidentity" {
+					okk = out.AsRecreation
+				}
+				param := fmt.Sprintf("%s/round%d/call%d", failing.Param, round, k)
+				if out.Accepted || out.Panic != "" || !okk {
+					x.Violation("typed-fetch-error", param, fmt.Sprintf("the %s endpoint of THIS verifier's getter is unreachable (another verification was downloading through its own healthy getter meanwhile), but the result is accepted=%v err=%q — not the typed fetch error", name, out.Accepted, out.Err), "verify", failing)
+				}
+				x.Note("typed-fetch-error", param, out.Accepted, out.Panic != "", okk)
+			}
+			if !neighbourOK {
+				x.Violation("typed-fetch-error", fmt.Sprintf("%s/round%d/the-healthy-neighbour", name, round), "the verification whose own getter serves every document was refused while a neighbour's endpoint was down", "verify", healthy)
+			}
+		}
+	}
 	x.Require("baseline", 1, 3, 4)
 	x.Require("stdin-kind", 12, 9, 21)
 	x.Require("relative-paths", 12, 6, 18)
 	x.Require("network", 5, 12, 20)
 	x.Require("policy-field/mr_td", 4, 10, 16)
-	x.Require("typed-fetch-error", 0, 24, 24)
+	x.Require("typed-fetch-error", 0, 48, 48)
 	x.Require("config-shape", 12, 6, 20)
 }
 
@@ -966,4 +1012,20 @@ func b64(b []byte) string {
 		}
 	}
 	return string(out)
+}
+
+// slowGetter delays every download of the getter it wraps.
+type slowGetter struct {
+	inner interface {
+		Get(string) (map[string][]string, []byte, error)
+	}
+	delay time.Duration
+	n     int64
+}
+
+func (g *slowGetter) calls() int64 { return atomic.LoadInt64(&g.n) }
+func (g *slowGetter) Get(u string) (map[string][]string, []byte, error) {
+	atomic.AddInt64(&g.n, 1)
+	time.Sleep(g.delay)
+	return g.inner.Get(u)
 }
